@@ -389,6 +389,28 @@ def _rb_or_else_opt(var, v, keep=None):
     return v if var == 'None' and keep is None and v is not None else ('agg', OPT, 'Some', (keep,))
 
 
+def array_into_iter(eng, st, fr, args, fn, site):
+    """[T; N]::into_iter(): an iterator value that remembers the array and the position"""
+    arr = args[0]
+    if arr[0] == 'agg' and arr[1] in ('array',) or (arr[0] == 'agg' and arr[2] is None and arr[1].startswith('[')):
+        return T('arr_iter', arr, C(0, 'usize'))
+    return None
+
+
+def array_iter_next(eng, st, fr, args, fn, site):
+    d = ptr_term(args[0])
+    if d[0] != 'ref':
+        return None
+    it = eng.load(st, d[1])
+    if not (it[0] == 't' and it[1] == 'arr_iter' and is_int_const(it[2][1])):
+        return None
+    arr, i = it[2][0], it[2][1][1]
+    if i < len(arr[3]):
+        eng.write(st, d[1], T('arr_iter', arr, C(i + 1, 'usize')))
+        return ('agg', OPT, 'Some', (arr[3][i],))
+    return ('agg', OPT, 'None', ())
+
+
 def bool_then_some(eng, st, fr, args, fn, site):
     b, v = args[0], args[1]
     if is_int_const(b):
@@ -745,6 +767,9 @@ SUMMARIES = {
     'std::result::Result::<T, E>::map_or': map_or_else(RES, with_default_fn=False),
     'std::option::Option::<T>::zip': opt_zip,
     'std::array::<impl [T; N]>::map': array_map,
+    'std::array::iter::<impl std::iter::IntoIterator for [T; N]>::into_iter': array_into_iter,
+    '<std::array::IntoIter<T, N> as std::iter::Iterator>::next': array_iter_next,
+    '<std::array::iter::IntoIter<T, N> as std::iter::Iterator>::next': array_iter_next,
     'std::option::Option::<T>::or_else': hof(OPT, 'None', _rb_or_else_opt),
     'std::option::Option::<std::result::Result<T, E>>::transpose': opt_transpose,
     'std::option::Option::<T>::filter': opt_filter,
